@@ -40,9 +40,9 @@ def run(c, a):
     # (2) purity
     ev = run_ops(c, "call", ALL_OPS)
     c.trace("OpsTrace", ev, dedupe=False)
-    if thorough:
-        evw = run_ops(c, "weak", ["Equals", "NotEqual", "HasElement", "Index", "Length"], prop="C01")
-        c.trace("OpsTrace", evw)
+    # purity of calls on partly unknown operands (where evaluation order can leak into the answer)
+    evw = run_ops(c, "weak", ["Equals", "NotEqual", "HasElement", "Index", "Length"] if thorough else ["Equals", "NotEqual"], prop="C01")
+    c.trace("OpsTrace", evw)
     gen = c.path("types.ndjson")
     nt = c.tlc_gen("C07Gen", {"VUNIVERSE": "U2" if thorough else "U1", "VOUT": gen})
     # (3) goroutines under the race detector
